@@ -66,6 +66,10 @@ TRANSLATORS = {
     "ctap_schema": ("ctap_schema.py", ["passkey-types/src"], "theories/Wire/gen/CtapSchema.v"),
     "webauthn_error": ("webauthn_error.py", ["passkey-client/src/lib.rs"], "theories/Wire/gen/WebauthnError.v"),
     "json_schema": ("json_schema.py", ["passkey-types/src"], "theories/Wire/gen/JsonSchema.v"),
+    "ceremony_skeleton": ("ceremony_skeleton.py", ["passkey-authenticator/src/authenticator.rs", "passkey-authenticator/src/authenticator/get_info.rs",
+                                                   "passkey-authenticator/src/authenticator/make_credential.rs",
+                                                   "passkey-authenticator/src/authenticator/get_assertion.rs",
+                                                   "passkey-authenticator/src/u2f.rs"], "theories/Auth/gen/Skeleton.v"),
 }
 
 
